@@ -58,7 +58,7 @@ func (p *ProcessorOrchestrator) Create(
 		return nil, immutableProvisionedByConfigErr(fmt.Sprintf("cannot add a processor to the pipeline %q", pl.ID))
 	}
 
-	if pl.GetStatus() == pipeline.StatusRunning {
+	if isLive(pl) {
 		// Invariant: errors.Is(err, ErrPipelineRunning) still holds — sentinel
 		// wrapped, ConduitError adds the code.
 		return nil, pipelineRunningErr(pipeline.ErrPipelineRunning.Error())
@@ -176,7 +176,7 @@ func (p *ProcessorOrchestrator) Update(ctx context.Context, id string, plugin st
 		return nil, err
 	}
 
-	if pl.GetStatus() == pipeline.StatusRunning {
+	if isLive(pl) {
 		// Invariant: errors.Is(err, ErrPipelineRunning) still holds — sentinel
 		// wrapped, ConduitError adds the code.
 		return nil, pipelineRunningErr(pipeline.ErrPipelineRunning.Error())
@@ -228,7 +228,7 @@ func (p *ProcessorOrchestrator) Delete(ctx context.Context, id string) error {
 		return err
 	}
 
-	if pl.GetStatus() == pipeline.StatusRunning {
+	if isLive(pl) {
 		// Invariant: errors.Is(err, ErrPipelineRunning) still holds — sentinel
 		// wrapped, ConduitError adds the code.
 		return pipelineRunningErr(pipeline.ErrPipelineRunning.Error())
